@@ -143,6 +143,7 @@ func c17Workloads(c *ctx) error {
 		{name: "2ref-sym-b256", refsPerTx: 2, nameLen: 30, fresh: true, symref: true, blockSize: 256},
 		{name: "4ref-sha256", refsPerTx: 4, logsPerTx: 1, nameLen: 10, fresh: true, sha256: true},
 		{name: "10ref-short", refsPerTx: 10, nameLen: 5, fresh: true},
+		{name: "1ref-name100", refsPerTx: 1, nameLen: 88, fresh: true},
 		{name: "uncompactable-b64", refsPerTx: 1, nameLen: 17, fresh: true, symref: true, blockSize: 64, delShort: true, maxN: 12},
 	}
 	N := 150
